@@ -16,7 +16,10 @@ def population(rng, n, with_foreign):
         # the eviction order is decided by the full timestamp
         m = G.T0 + rank * (10**9 if fine is False else 10**8)
         a = m + 5 if acc else m - 120 * 10**9
-        L.append("plant {D}/f%02d x 444 %d %d" % (i, m, a))
+        # a dot INSIDE a name is an ordinary key byte (only a leading dot is reserved): every third
+        # entry carries an extension
+        nm = "f%02d" % i if i % 3 else "f%02d.v1.bin" % i
+        L.append("plant {D}/%s x 444 %d %d" % (nm, m, a))
         desc.append((rank, acc))
     if with_foreign:
         for j in range(rng.below(3)):
@@ -40,4 +43,9 @@ def population(rng, n, with_foreign):
         if rng.below(3) == 0:
             L.append("mkdir {D}/.kismet_temp/nested")
             L.append("plant {D}/.kismet_temp/nested/deep z 600 %d %d" % (BASE - 2 * HOUR, BASE - 2 * HOUR))
+        # the temp directory ITSELF was last modified long ago (nobody created or removed a file in
+        # it for hours) while a file in it is still being written: writing does not touch the directory
+        if rng.below(2):
+            L.append("plant {D}/.kismet_temp/inflight z 600 %d %d" % (BASE - 60 * 10**9, BASE - 60 * 10**9))
+            L.append("mkdirt {D}/.kismet_temp %d" % (BASE - 3 * HOUR))
     return L, desc
